@@ -1,6 +1,7 @@
 package main
 
 import (
+	"regexp"
 	"strconv"
 	"fmt"
 	"go/types"
@@ -14,6 +15,10 @@ import (
 	"golang.org/x/tools/go/ssa"
 	"golang.org/x/tools/go/ssa/ssautil"
 )
+
+var specSymRe = regexp.MustCompile(`\|spec [^|]+\|`)
+
+type globalAxiom struct{ name, text string }
 
 type Gen struct {
 	sentinels map[*ssa.Global]int
@@ -263,6 +268,7 @@ func (c *FnCtx) resetPass() {
 	c.ord = map[string]int{}
 	c.allocs = nil
 	c.localCells = nil
+	c.globalAxioms = nil
 	c.interiorCell = nil
 	c.condCells = nil
 	c.allocOf = map[string]ssa.Value{}
@@ -462,7 +468,10 @@ func (c *FnCtx) setupEntry() {
 	}
 	for _, l := range c.g.cs.Lemmas {
 		if l.Global && l.Axiom {
-			c.useLemma(l.Name)
+			// global axioms are added to a function's queries only if the function mentions one of their
+			// specification symbols (decided in assemble): irrelevant quantified axioms slow the solvers down
+			lc := *l
+			c.globalAxioms = append(c.globalAxioms, globalAxiom{name: l.Name, text: c.lemmaTerm(&lc)})
 		}
 	}
 	if c.fc == nil {
@@ -518,6 +527,29 @@ func (c *FnCtx) lemmaTerm(l *LemmaDef) string {
 func (c *FnCtx) assemble() {
 	pre := prelude(c.mode)
 	declText := strings.Join(c.decls, "\n") + "\n"
+	// relevance filter for global axioms
+	var all strings.Builder
+	for _, it := range c.items {
+		all.WriteString(it.text)
+		for _, p := range it.pre {
+			all.WriteString(p)
+		}
+	}
+	body := all.String()
+	for _, ga := range c.globalAxioms {
+		syms := specSymRe.FindAllString(ga.text, -1)
+		relevant := len(syms) == 0
+		for _, sy := range syms {
+			if strings.Contains(body, sy) {
+				relevant = true
+				break
+			}
+		}
+		if relevant {
+			declText += "(assert " + ga.text + ")\n"
+			c.used["axiom: "+ga.name] = true
+		}
+	}
 	var sb strings.Builder
 	for _, it := range c.items {
 		if it.kind == "assert" {
